@@ -4,6 +4,7 @@ import (
 	stdjson "encoding/json"
 
 	hcl "Havoc/pkg/profile/yaotl"
+	"Havoc/pkg/profile/yaotl/gohcl"
 	"Havoc/pkg/profile/yaotl/hcldec"
 	"Havoc/pkg/profile/yaotl/hclsyntax"
 	"Havoc/pkg/profile/yaotl/json"
@@ -53,6 +54,44 @@ func verifNative(src []byte, name string) (hcl.Body, bool) {
 	return f.Body, true
 }
 
+// verifSpellings builds the five spellings of one configuration (see H_c19_equiv); num is the
+// text of the number n.
+func verifSpellings(x, y, z string, hasA bool, num string) ([]hcl.Body, bool) {
+	var bodies []hcl.Body
+	la, lj := "", ""
+	var laX, ljX []byte
+	if hasA {
+		laX = verifCat("a = \"", x, "\"\n")
+		ljX = verifCat("\"a\":\"", x, "\",")
+	}
+	_, _ = la, lj
+	// 0: plain
+	b0, ok := verifNative(verifCat(string(laX), "n = ", num, "\nb {\n  c = \"", y, "\"\n}\nb {\n  c = \"", z, "\"\n}\n"), "v0")
+	verif_assert(ok, "the plain spelling parses")
+	// 1: reordered, comments, odd spacing, single-line block
+	b1, ok1 := verifNative(verifCat("# k\nb { c = \"", y, "\" }\n\n  n=", num, " // t\nb {\n c   =   \"", z, "\"\n}\n/* m */\n", string(laX)), "v1")
+	verif_assert(ok1, "the reordered spelling parses")
+	// 2: JSON
+	jf, jd := json.Parse(verifCat("{", string(ljX), "\"n\":", num, ",\"b\":[{\"c\":\"", y, "\"},{\"c\":\"", z, "\"}]}"), "v2")
+	if jd.HasErrors() {
+		verif_note(jd[0].Summary + ": " + jd[0].Detail)
+	}
+	verif_assert(!jd.HasErrors(), "the JSON spelling parses")
+	// 3: two files merged
+	f1, ok3 := verifNative(verifCat(string(laX), "b {\n c = \"", y, "\"\n}\n"), "v3a")
+	f2, ok4 := verifNative(verifCat("n = ", num, "\nb {\n c = \"", z, "\"\n}\n"), "v3b")
+	verif_assert(ok3, "the first part parses")
+	verif_assert(ok4, "the second part parses")
+	// 4: dynamic block over the same values
+	b4, ok5 := verifNative(verifCat(string(laX), "n = ", num, "\ndynamic \"b\" {\n  for_each = [\"", y, "\", \"", z, "\"]\n  content {\n    c = b.value\n  }\n}\n"), "v4")
+	verif_assert(ok5, "the dynamic-block spelling parses")
+	if !ok || !ok1 || jd.HasErrors() || !ok3 || !ok4 || !ok5 {
+		return nil, false
+	}
+	bodies = append(bodies, b0, b1, jf.Body, hcl.MergeBodies([]hcl.Body{f1, f2}), Expand(b4, nil))
+	return bodies, true
+}
+
 // H_c19_equiv: one configuration (a required string attribute a, an optional number n, two
 // repeated blocks b with a string attribute c; the three strings are arbitrary characters)
 // written five ways - plainly, reordered with comments and odd spacing, in the JSON syntax,
@@ -74,38 +113,10 @@ func H_c19_equiv() {
 			"c": &hcldec.AttrSpec{Name: "c", Type: cty.String},
 		}},
 	}
-	la, lj := "", ""
-	var laX, ljX []byte
-	if hasA {
-		laX = verifCat("a = \"", x, "\"\n")
-		ljX = verifCat("\"a\":\"", x, "\",")
-	}
-	_, _ = la, lj
-	var bodies []hcl.Body
-	// 0: plain
-	b0, ok := verifNative(verifCat(string(laX), "n = 18446744073709551617\nb {\n  c = \"", y, "\"\n}\nb {\n  c = \"", z, "\"\n}\n"), "v0")
-	verif_assert(ok, "the plain spelling parses")
-	// 1: reordered, comments, odd spacing, single-line block
-	b1, ok1 := verifNative(verifCat("# k\nb { c = \"", y, "\" }\n\n  n=18446744073709551617 // t\nb {\n c   =   \"", z, "\"\n}\n/* m */\n", string(laX)), "v1")
-	verif_assert(ok1, "the reordered spelling parses")
-	// 2: JSON
-	jf, jd := json.Parse(verifCat("{", string(ljX), "\"n\":18446744073709551617,\"b\":[{\"c\":\"", y, "\"},{\"c\":\"", z, "\"}]}"), "v2")
-	if jd.HasErrors() {
-		verif_note(jd[0].Summary + ": " + jd[0].Detail)
-	}
-	verif_assert(!jd.HasErrors(), "the JSON spelling parses")
-	// 3: two files merged
-	f1, ok3 := verifNative(verifCat(string(laX), "b {\n c = \"", y, "\"\n}\n"), "v3a")
-	f2, ok4 := verifNative(verifCat("n = 18446744073709551617\nb {\n c = \"", z, "\"\n}\n"), "v3b")
-	verif_assert(ok3, "the first part parses")
-	verif_assert(ok4, "the second part parses")
-	// 4: dynamic block over the same values
-	b4, ok5 := verifNative(verifCat(string(laX), "n = 18446744073709551617\ndynamic \"b\" {\n  for_each = [\"", y, "\", \"", z, "\"]\n  content {\n    c = b.value\n  }\n}\n"), "v4")
-	verif_assert(ok5, "the dynamic-block spelling parses")
-	if !ok || !ok1 || jd.HasErrors() || !ok3 || !ok4 || !ok5 {
+	bodies, ok := verifSpellings(x, y, z, hasA, "18446744073709551617")
+	if !ok {
 		return
 	}
-	bodies = append(bodies, b0, b1, jf.Body, hcl.MergeBodies([]hcl.Body{f1, f2}), Expand(b4, nil))
 	var first cty.Value
 	for i, b := range bodies {
 		v, diags := hcldec.Decode(b, spec, nil)
@@ -199,6 +210,59 @@ func H_c19_nested_dynamic() {
 		if is.LengthInt() == 2 {
 			verif_assert(is.Index(cty.NumberIntVal(0)).GetAttr("v").AsString() == string([]byte{y}), "first inner value")
 			verif_assert(is.Index(cty.NumberIntVal(1)).GetAttr("v").AsString() == string([]byte{z}), "second inner value")
+		}
+	}
+	verif_witness()
+}
+
+type verifCfgB struct {
+	C string `yaotl:"c"`
+}
+
+type verifCfg struct {
+	A string      `yaotl:"a"`
+	N int         `yaotl:"n,optional"`
+	B []verifCfgB `yaotl:"b,block"`
+}
+
+// H_c19_equiv_gohcl: the same five spellings through the other decoder: gohcl.DecodeBody into a
+// Go struct (a required string, an optional int, repeated blocks) gives the same struct, and
+// all spellings are valid together.
+func H_c19_equiv_gohcl() {
+	hclsyntax.VerifRuneSeg = true
+	hasA := nondet_bool("required-present")
+	x, y, z := verifPlainText("X", 1), verifPlainText("Y", 1), verifPlainText("Z", 1)
+	bodies, ok := verifSpellings(x, y, z, hasA, "5")
+	if !ok {
+		verif_fail("every spelling parses")
+		return
+	}
+	var first verifCfg
+	for i, b := range bodies {
+		var cfg verifCfg
+		diags := gohcl.DecodeBody(b, nil, &cfg)
+		verif_assert(diags.HasErrors() == !hasA, "every spelling is valid exactly when the configuration is (gohcl)")
+		if diags.HasErrors() {
+			continue
+		}
+		if i == 0 {
+			first = cfg
+			verif_assert(cfg.A == x, "attribute a decodes to its text (gohcl)")
+			verif_assert(cfg.N == 5, "attribute n decodes to its number (gohcl)")
+			verif_assert(len(cfg.B) == 2, "both blocks are decoded (gohcl)")
+			if len(cfg.B) == 2 {
+				verif_assert(cfg.B[0].C == y, "first block, in order (gohcl)")
+				verif_assert(cfg.B[1].C == z, "second block, in order (gohcl)")
+			}
+		} else {
+			verif_assert(cfg.A == first.A, "an equivalent spelling decodes to the same struct: a")
+			verif_assert(cfg.N == first.N, "an equivalent spelling decodes to the same struct: n")
+			verif_assert(len(cfg.B) == len(first.B), "an equivalent spelling decodes to the same struct: blocks")
+			if len(cfg.B) == len(first.B) {
+				for k := range cfg.B {
+					verif_assert(cfg.B[k].C == first.B[k].C, "an equivalent spelling decodes to the same struct: block contents")
+				}
+			}
 		}
 	}
 	verif_witness()
